@@ -145,6 +145,26 @@ def unary_laws(tier):
                         st.violation('clear/mutates', f'clear_features{F} changed its argument {T[i]}', a=T[i], b=list(F))
                     if K.key(got.clear_features(*F)) != K.key(got):
                         st.violation('clear/idempotent', f'{T[i]}.clear_features{F} is not idempotent', a=T[i], b=list(F))
+    # erasing in two steps: whatever was erased first, erasing a larger set afterwards gives what erasing the larger set at once gives
+    def erased(x, F):
+        if isinstance(x, K.Functor):
+            return ('F', erased(x.left, F), x.slash, erased(x.right, F))
+        return ('A', x.base, ('U', None)) if K.feat_text(x.feature) in F else K.key(x)
+    for i, c in enumerate(U):
+        names = sorted({K.feat_text(l.feature) for l in K.leaves(c)} - {''})
+        if not names or not isinstance(c, K.Functor):
+            continue
+        for r_ in range(0, len(names)):
+            for A in itertools.combinations(names, r_):
+                for extra in names:
+                    if extra in A:
+                        continue
+                    B = A + (extra,)
+                    for first in (A, A + ('zz',)) if A else (('zz',),):
+                        st.count('clear_chains')
+                        step = c.clear_features(*first).clear_features(*B)
+                        if K.key(step) != erased(c, set(B)):
+                            st.violation('clear/chain', f'{T[i]}.clear_features{first}.clear_features{B} = {step}; erasing {B} at once gives {c.clear_features(*B)}', a=T[i], b=list(B), first=list(first))
     st.count('feature_sets', len(feature_sets_seen))
     # values derived by the rule functions (unification bindings, composed results) must behave as values too
     from depccg.grammar import en, ja
@@ -244,7 +264,7 @@ def replay(rec):
         bad = any(exp[k] is not None and obs[k] != exp[k] for k in obs)
     elif key == 'clear':
         F = tuple(b)
-        got = a.clear_features(*F)
+        got = a.clear_features(*rec['first']).clear_features(*F) if rec.get('first') is not None else a.clear_features(*F)
         print('clear_features', F, '->', got)
         def expf(x):
             if isinstance(x, K.Functor):
